@@ -89,8 +89,6 @@ def generate_index(args:argparse.Namespace):
     proteome = aa.AminoAcidSeqDict()
     proteome.dump_fasta(parth_proteome, source=args.reference_source)
     logger.info('Proteome FASTA loaded.')
-    index_dir.save_proteome(proteome)
-    logger.info('Proteome FASTA saved to disk.')
 
     # annotation GTF
     anno = index_dir.save_annotation(
@@ -101,6 +99,12 @@ def generate_index(args:argparse.Namespace):
         symlink=args.gtf_symlink
     )
     logger.info('Genome annotation GTF saved to disk.')
+
+    # The proteome is saved after the annotation is processed, because with
+    # --invalid-protein-as-noncoding the invalid proteins are removed from it
+    # there. updateIndex must digest the same proteome as generateIndex.
+    index_dir.save_proteome(proteome)
+    logger.info('Proteome FASTA saved to disk.')
 
     # canoincal peptide pool
     cleavage_params = params.CleavageParams(
